@@ -343,7 +343,17 @@ def server_level(ctx, rng, hostile_cmds, hostile_handshakes):
     n = 0
     env = impl.Env(own_sleep=False)
     try:
+        opened, closed = [], []
+
         class S(impl.Session):
+            async def init(self, connection):
+                await super().init(connection)
+                opened.append(1)
+
+            async def close(self):
+                closed.append(1)
+                await super().close()
+
             async def query(self, e, sql, attrs):
                 return [(1,)], ["a"]
 
@@ -402,6 +412,11 @@ def server_level(ctx, rng, hostile_cmds, hostile_handshakes):
                 continue
             state = target.blocked_on()
             if state == "done":
+                # (the witness connection is the only one that stays: every other initialised session has been closed by now)
+                if len(closed) != len(opened) - 1:
+                    problems.append(dict(kind="session-not-closed", payload=list(payload[:64]), seq=seqid, sessions_opened=len(opened), sessions_closed=len(closed),
+                                         note="a connection ended by a hostile packet leaves its application session open: what the session holds is never released"))
+                    closed.append(1)      # report once per connection
                 if not target.writer.closed or any(k for k in ctl._connections if ctl._connections[k] is not None and getattr(ctl._connections[k], "stream", None) and ctl._connections[k].stream.writer is target.writer):
                     problems.append(dict(kind="not-released", payload=list(payload[:64]), seq=seqid))
             elif state != "read":
